@@ -5,6 +5,7 @@ import (
 	"fmt"
 	"sort"
 	"strings"
+	"time"
 
 	"verif/mc/drive"
 	"verif/mc/engine"
@@ -709,6 +710,33 @@ func c13Stability(x *engine.Ctx, base c13Base, h0 string, w0 *simfs.World) {
 	}
 	// read again (a different time)
 	check("time", c13Clone(base))
+	// read on another calendar day: for a validity without `from` nothing zone- or date-dependent may
+	// enter the hash, so a 26-hour shift of the local zone stands in for "tomorrow"
+	var prof *refcfg.ProfileCfg
+	if base.Cfg.Profile != "" {
+		prof = base.Prof
+	}
+	if ev := refcfg.EffectiveValidity(base.Cfg, prof); ev == nil || ev.From == "" {
+		saved := time.Local
+		for _, z := range []struct {
+			n   string
+			off int
+		}{{"UTC-12", -12 * 3600}, {"UTC+14", 14 * 3600}} {
+			time.Local = time.FixedZone(z.n, z.off)
+			check("calendar-day ("+z.n+")", c13Clone(base))
+		}
+		// in place: generated "today", looked at "tomorrow" with generate-changed
+		time.Local = time.FixedZone("UTC-12", -12*3600)
+		if _, wz, err := c13Hash(c13Clone(base)); err == nil {
+			time.Local = time.FixedZone("UTC+14", 14*3600)
+			res := drive.Run(wz, drive.Changed, nil)
+			x.Transition(1)
+			if !res.OK() || len(res.Plan) != 0 {
+				x.Violation("C13/unchanged-looks-changed next-day", fmt.Sprintf("base %q: generated under UTC-12, re-run under UTC+14 (another calendar day) with generate-changed plans %v (%v)", base.Name, res.PlanAliases(), res.Err()))
+			}
+		}
+		time.Local = saved
+	}
 	// file name / directory / suffix / JSON form
 	for _, p := range []string{"x.yaml", "sub/dir/y.yml", "z.JSON"} {
 		b := c13Clone(base)
@@ -793,7 +821,7 @@ func init() {
 	register(&engine.Check{
 		ID:          "C13",
 		Level:       "model_checking",
-		Rule:        fmt.Sprintf("%d base configurations (baseline, root, each optional field, 5 validity shapes, every extension kind with content, raw bodies, an extension list, manipulations; the same under a profile carrying validity and extensions) x (A) stability: re-read at another time, as x.yaml / sub/dir/y.yml / z.JSON (JSON rendering), under two aliases, under a renamed profile -> identical #HASH line; in place: a later generate-changed run, a re-rendered identical configuration with comments and a consistently renamed profile plan nothing; (B) sensitivity: each of %d single-field edits (set, unset, change of every certificate and profile field; extensions: change kind keeping the raw body, flip critical, change content, reorder, insert, delete, optional/override flips) - relevant iff the reference certificate model changes - must change the hash of a fresh run and make a generate-changed run regenerate the entity in place; all edit pairs on three bases (quick) / on every base (thorough). states = distinct (base, edit) worlds, transitions = in-place runs", len(bases), len(c13Edits())),
+		Rule:        fmt.Sprintf("%d base configurations (baseline, root, each optional field, 5 validity shapes, every extension kind with content, raw bodies, an extension list, manipulations; the same under a profile carrying validity and extensions) x (A) stability: re-read at another time and (for validities without from) on another calendar day simulated by a 26-hour shift of the local zone, as x.yaml / sub/dir/y.yml / z.JSON (JSON rendering), under two aliases, under a renamed profile -> identical #HASH line; in place: a later generate-changed run, a re-rendered identical configuration with comments and a consistently renamed profile plan nothing; (B) sensitivity: each of %d single-field edits (set, unset, change of every certificate and profile field; extensions: change kind keeping the raw body, flip critical, change content, reorder, insert, delete, optional/override flips) - relevant iff the reference certificate model changes - must change the hash of a fresh run and make a generate-changed run regenerate the entity in place; all edit pairs on three bases (quick) / on every base (thorough). states = distinct (base, edit) worlds, transitions = in-place runs", len(bases), len(c13Edits())),
 		Bound:       map[string]string{"edits": "single on every base; pairs on 3 bases (quick) / all bases (thorough)"},
 		Assumptions: []string{"hash equality is demanded only for the four dimensions the statement lists (time, file name, own alias, profile name)", "edits between an omitted algorithm and its default are not used (documentation names two defaults)"},
 		Budget:      budgets(quickBudget, thoroughBudget),
